@@ -255,6 +255,8 @@ pub struct WorldCfg {
     /// Wake-driven execution: after its first poll the server future is polled again only when the
     /// waker it was given has fired (as a runtime would), instead of "until nothing changes".
     pub wake: bool,
+    /// Record only the last quiescent point (long histories with thousands of connections).
+    pub lean: bool,
 }
 
 #[derive(Debug, Clone, PartialEq)]
@@ -547,6 +549,9 @@ pub fn run_world(cfg: &WorldCfg) -> WorldOut {
                     }
                 }
             }
+            if cfg.lean && !sh.borrow().sched.is_empty() && !done {
+                continue;
+            }
             let s = sh.borrow();
             out.checkpoints.push(Checkpoint {
                 tick: s.clock,
@@ -785,6 +790,8 @@ pub struct Scenario {
     pub steps: Vec<Step>,
     /// run wake-driven (see `WorldCfg::wake`)
     pub wake: bool,
+    /// see `WorldCfg::lean`
+    pub lean: bool,
 }
 
 pub fn hexs(b: &[u8]) -> String {
@@ -805,6 +812,7 @@ impl Scenario {
                 .collect(),
             steps: self.steps.clone(),
             wake: self.wake,
+            lean: self.lean,
         }
     }
 
@@ -819,6 +827,7 @@ impl Scenario {
             })).collect::<Vec<_>>(),
             "steps": steps_json(&self.steps),
             "wake": self.wake,
+            "lean": self.lean,
         })
     }
 
@@ -841,6 +850,7 @@ impl Scenario {
             }).collect(),
             steps: steps_from_json(&v["steps"]),
             wake: v["wake"].as_bool().unwrap_or(false),
+            lean: v["lean"].as_bool().unwrap_or(false),
         }
     }
 
